@@ -12,12 +12,12 @@
    extracts from the real build_workflow() (IOEnv.BUILT_FILE), so that TLC explores the workflow compile() really builds.
 
    Abstract record of (circuit, PassData), all flags relative to the TARGET machine model:
-       w       1, 2, 3, 4 (= four or more): width of the circuit
+       w       1, 2, 3 (= three or more): width of the circuit
        fits    the circuit has the machine's width (it lives on the physical qudits)
        wide    some gate (placeholders aside, CircuitGates looked into) acts on three or more qudits
        mq, sq  every multi- / single-qudit gate (placeholders aside, CircuitGates looked into) is in the model's gate set
        coupled every multi-qudit gate sits on pairwise coupled physical qudits under the current placement
-       folded  the circuit contains CircuitGates;  blk1: some of them are single-qudit
+       folded  the circuit contains CircuitGates
        a2a     the model's connectivity is temporarily replaced by all-to-all (Extract/RestoreModelConnectivityPass)
        meas    "none" | "in" (measurement placeholders in the circuit) | "stored" (taken out by ExtractMeasurements)
    gs = static facts about the model's gate set: hasSQ, general (a general single-qudit gate), zx, allConst, swapNative.
@@ -25,12 +25,14 @@
    Each pass has a CONTRACT Eff(pass, a, gs) = set of records it may leave (what the pass is for, assuming its search
    succeeds).  TLC checks: from every abstract input, for optimization levels 1-4 and every input kind, no run gets
    stuck and every run that ends, ends in a record satisfying Executable (the abstract image of Compat!Executable).
-   Terminal records that are not Executable are printed as <<"CEX", kind, level, clause, initial record>>: design-level
+   Terminal records that are not Executable are printed as <<"CEX", kind, level, clause, input width class, input fits, gate-set class>>: design-level
    counterexamples, which the harness replays on the real compile() (Compat.tla decides there).
    PipelineTrace.tla validates recorded pass / predicate sequences of real runs against this module.                *)
 EXTENDS Naturals, Sequences, FiniteSets, TLC, Json, IOUtils
 
-CONSTANT UseBuilt
+CONSTANTS UseBuilt,      \* TRUE: programs come from IOEnv.BUILT_FILE (extracted from the real build_workflow)
+          KindsUsed,     \* subset of Kinds explored by this run
+          LevelsUsed     \* subset of 1..4
 
 \* ------------------------------------------------------------------ program constructors
 P(n)           == [t |-> "pass", name |-> n]
@@ -120,13 +122,12 @@ Program(kind, level, n) == IF UseBuilt THEN BuiltProg(kind, level, n) ELSE Prog(
 
 \* ------------------------------------------------------------------ abstract records
 Meas == {"none", "in", "stored"}
-Records == [w : 1..4, fits : BOOLEAN, wide : BOOLEAN, mq : BOOLEAN, sq : BOOLEAN, coupled : BOOLEAN,
-            folded : BOOLEAN, blk1 : BOOLEAN, a2a : BOOLEAN, meas : Meas]
+Records == [w : 1..3, fits : BOOLEAN, wide : BOOLEAN, mq : BOOLEAN, sq : BOOLEAN, coupled : BOOLEAN,
+            folded : BOOLEAN, a2a : BOOLEAN, meas : Meas]
 \* what a record of a real circuit always satisfies
 Consistent(r) ==
   /\ (r.w = 1 => r.mq /\ ~r.wide /\ r.coupled)
   /\ (r.wide => r.w >= 3)
-  /\ (r.blk1 => r.folded)
 GateSets == [hasSQ : BOOLEAN, general : BOOLEAN, zx : BOOLEAN, allConst : BOOLEAN, swapNative : BOOLEAN]
 GSConsistent(g) == (g.general => g.hasSQ /\ ~g.allConst) /\ (g.zx => g.hasSQ) /\ (~g.hasSQ => g.allConst)
 
@@ -135,15 +136,16 @@ RECURSIVE PredVal(_, _, _)
 PredVal(p, r, g) ==
   CASE p = "Width<2" -> {r.w < 2}
     [] p = "Width<3" -> {r.w < 3}
-    [] p = "Width<4" -> {r.w < 4}
-    [] p = "SinglePhysical" -> {r.sq /\ ~r.blk1}
+    [] p = "Width<4" -> IF r.w < 3 THEN {TRUE} ELSE BOOLEAN
+    \* (a single-qudit CircuitGate is a non-native single-qudit gate for this predicate: undetermined while folded)
+    [] p = "SinglePhysical" -> IF r.folded THEN {FALSE, r.sq} ELSE {r.sq}
     [] p = "NoSingleQuditGatesInModel" -> {~g.hasSQ}
     [] p = "AllConstantSingleQuditGates" -> {g.allConst}
     [] p = "HasGeneralSingleQuditGate" -> {g.general}
     [] p = "ZXGate" -> {g.zx}
     [] p \in {"Change", "GateCount"} -> BOOLEAN                          \* depend on the history of gate counts
     [] p = "Not(Width<2)" -> {~(r.w < 2)}
-    [] p = "Not(SinglePhysical)" -> {~(r.sq /\ ~r.blk1)}
+    [] p = "Not(SinglePhysical)" -> {~x : x \in PredVal("SinglePhysical", r, g)}
     [] OTHER -> BOOLEAN                                                  \* block-level predicates are not interpreted here
 
 \* ------------------------------------------------------------------ contracts
@@ -170,11 +172,11 @@ Synthesis == {"QSearchSynthesisPass", "LEAPSynthesisPass", "PermutationAwareSynt
 
 EffRaw(name, a, g) ==
   CASE name \in NoEffect -> {a}
-    [] name = "UnfoldPass" -> {[a EXCEPT !.folded = FALSE, !.blk1 = FALSE]}
+    [] name = "UnfoldPass" -> {[a EXCEPT !.folded = FALSE]}
     [] name = "ExtractMeasurements" -> {[a EXCEPT !.meas = IF a.meas = "in" THEN "stored" ELSE a.meas]}
     [] name = "RestoreMeasurements" -> {[a EXCEPT !.meas = IF a.meas = "stored" THEN "in" ELSE a.meas]}
     [] name \in {"QuickPartitioner", "GroupSingleQuditGatePass"} ->
-          {[a EXCEPT !.folded = f, !.blk1 = k] : f \in {TRUE, a.folded}, k \in BOOLEAN}
+          {[a EXCEPT !.folded = f] : f \in {TRUE, a.folded}}
     [] name = "ExtractModelConnectivityPass" -> {[a EXCEPT !.a2a = TRUE]}
     [] name = "RestoreModelConnectivityPass" -> {[a EXCEPT !.a2a = FALSE]}
     \* placement and layout choose where the circuit sits: only "coupled" can change
@@ -185,10 +187,10 @@ EffRaw(name, a, g) ==
     [] name = "PAMRoutingPass" ->
           {[a EXCEPT !.coupled = c, !.mq = m, !.sq = s, !.wide = FALSE] : m, s \in BOOLEAN, c \in (IF a.a2a THEN BOOLEAN ELSE {TRUE})}
     \* the circuit is moved onto the machine's qudits; locations go through the placement
-    [] name = "ApplyPlacement" -> {[a EXCEPT !.fits = TRUE, !.w = x] : x \in (IF a.fits THEN {a.w} ELSE a.w..4)}
+    [] name = "ApplyPlacement" -> {[a EXCEPT !.fits = TRUE, !.w = x] : x \in (IF a.fits THEN {a.w} ELSE a.w..3)}
     \* whole-circuit synthesis: native entanglers on edges of the (current) connectivity, general single-qudit gates
     [] name \in Synthesis ->
-          {[a EXCEPT !.mq = TRUE, !.wide = FALSE, !.folded = FALSE, !.blk1 = FALSE, !.coupled = c, !.sq = s] :
+          {[a EXCEPT !.mq = TRUE, !.wide = FALSE, !.folded = FALSE, !.coupled = c, !.sq = s] :
               s \in BOOLEAN, c \in (IF a.a2a THEN BOOLEAN ELSE {TRUE})}
     [] name = "ScanningGateRemovalPass" -> {b \in GateFlagVariants(a) : Monotone(a, b)}
     [] name \in {"GeneralSQDecomposition", "ZXZXZDecomposition"} -> {[a EXCEPT !.sq = TRUE]}
@@ -217,7 +219,7 @@ ExecClause(r, g) ==
 Executable(r, g) == ExecClause(r, g) = "ok"
 
 \* ------------------------------------------------------------------ state machine
-VARIABLES kind, level, gs, init, todo, rec
+VARIABLES kind, level, gs, init, todo, rec      \* init = [w, fits] of the input (history, for the counterexample lines)
 vars == <<kind, level, gs, init, todo, rec>>
 const == <<kind, level, gs, init>>
 
@@ -228,58 +230,66 @@ InitialRecords(k) ==
                         [] k = "unitary" -> r.w <= 3 /\ r.meas = "none" /\ ~r.folded /\ r.mq = (r.w = 1) /\ r.sq = (r.w > 1) /\ r.wide = (r.w = 3)
                         \* an empty circuit
                         [] OTHER -> r.w <= 3 /\ r.meas = "none" /\ ~r.folded /\ r.mq /\ r.sq /\ r.coupled /\ ~r.wide}
-Init == /\ kind \in Kinds /\ level \in 1..4
-        /\ gs \in {g \in GateSets : GSConsistent(g)}
-        /\ init \in InitialRecords(kind) /\ rec = init
-        /\ todo = Program(kind, level, init.w)
+\* representative gate-set classes: CNOT+U3, CZ+RZ+SX, CZ+U3+SWAP, CNOT+RY+RZ, CNOT+H+T, CNOT only
+GSList == <<[hasSQ |-> TRUE,  general |-> TRUE,  zx |-> FALSE, allConst |-> FALSE, swapNative |-> FALSE],
+            [hasSQ |-> TRUE,  general |-> FALSE, zx |-> TRUE,  allConst |-> FALSE, swapNative |-> FALSE],
+            [hasSQ |-> TRUE,  general |-> TRUE,  zx |-> FALSE, allConst |-> FALSE, swapNative |-> TRUE],
+            [hasSQ |-> TRUE,  general |-> FALSE, zx |-> FALSE, allConst |-> FALSE, swapNative |-> FALSE],
+            [hasSQ |-> TRUE,  general |-> FALSE, zx |-> FALSE, allConst |-> TRUE,  swapNative |-> FALSE],
+            [hasSQ |-> FALSE, general |-> FALSE, zx |-> FALSE, allConst |-> TRUE,  swapNative |-> FALSE]>>
+GSClasses == {GSList[i] : i \in 1..Len(GSList)}
+GSIndex(g) == CHOOSE i \in 1..Len(GSList) : GSList[i] = g
+ASSUME \A g \in GSClasses : g \in GateSets /\ GSConsistent(g)
+Init == /\ kind \in KindsUsed /\ level \in LevelsUsed
+        /\ gs \in GSClasses
+        /\ rec \in InitialRecords(kind) /\ init = [w |-> rec.w, fits |-> rec.fits]
+        /\ todo = Program(kind, level, rec.w)
 
 Head1 == todo[1]
 IsPass(n) == todo # <<>> /\ Head1.t = "pass" /\ Head1.name = n
-Pass(n) == /\ IsPass(n)
-           /\ rec' \in Eff(n, rec, gs)
-           /\ todo' = Tail(todo) /\ UNCHANGED const
+\* (one named action per pass, so that TLC's coverage lists each of them)
+Step == rec' \in Eff(Head1.name, rec, gs) /\ todo' = Tail(todo) /\ UNCHANGED const
 Known == NoEffect \cup Synthesis \cup
          {"UnfoldPass", "ExtractMeasurements", "RestoreMeasurements", "QuickPartitioner", "GroupSingleQuditGatePass",
           "ExtractModelConnectivityPass", "RestoreModelConnectivityPass", "GreedyPlacementPass", "GeneralizedSabreLayoutPass",
           "PAMLayoutPass", "GeneralizedSabreRoutingPass", "PAMRoutingPass", "ApplyPlacement", "ScanningGateRemovalPass"}
 
-SetRandomSeedPass == Pass("SetRandomSeedPass")
-UnfoldPass == Pass("UnfoldPass")
-ExtractMeasurements == Pass("ExtractMeasurements")
-RestoreMeasurements == Pass("RestoreMeasurements")
-SetModelPass == Pass("SetModelPass")
-SetTargetPass == Pass("SetTargetPass")
-LogPass == Pass("LogPass")
-LogErrorPass == Pass("LogErrorPass")
-NOOPPass == Pass("NOOPPass")
-QuickPartitioner == Pass("QuickPartitioner")
-ExtendBlockSizePass == Pass("ExtendBlockSizePass")
-GroupSingleQuditGatePass == Pass("GroupSingleQuditGatePass")
-GreedyPlacementPass == Pass("GreedyPlacementPass")
-GeneralizedSabreLayoutPass == Pass("GeneralizedSabreLayoutPass")
-GeneralizedSabreRoutingPass == Pass("GeneralizedSabreRoutingPass")
-ApplyPlacement == Pass("ApplyPlacement")
-ExtractModelConnectivityPass == Pass("ExtractModelConnectivityPass")
-RestoreModelConnectivityPass == Pass("RestoreModelConnectivityPass")
-SubtopologySelectionPass == Pass("SubtopologySelectionPass")
-PAMLayoutPass == Pass("PAMLayoutPass")
-PAMRoutingPass == Pass("PAMRoutingPass")
-QSearchSynthesisPass == Pass("QSearchSynthesisPass")
-LEAPSynthesisPass == Pass("LEAPSynthesisPass")
-PermutationAwareSynthesisPass == Pass("PermutationAwareSynthesisPass")
-ScanningGateRemovalPass == Pass("ScanningGateRemovalPass")
+SetRandomSeedPass == IsPass("SetRandomSeedPass") /\ Step
+UnfoldPass == IsPass("UnfoldPass") /\ Step
+ExtractMeasurements == IsPass("ExtractMeasurements") /\ Step
+RestoreMeasurements == IsPass("RestoreMeasurements") /\ Step
+SetModelPass == IsPass("SetModelPass") /\ Step
+SetTargetPass == IsPass("SetTargetPass") /\ Step
+LogPass == IsPass("LogPass") /\ Step
+LogErrorPass == IsPass("LogErrorPass") /\ Step
+NOOPPass == IsPass("NOOPPass") /\ Step
+QuickPartitioner == IsPass("QuickPartitioner") /\ Step
+ExtendBlockSizePass == IsPass("ExtendBlockSizePass") /\ Step
+GroupSingleQuditGatePass == IsPass("GroupSingleQuditGatePass") /\ Step
+GreedyPlacementPass == IsPass("GreedyPlacementPass") /\ Step
+GeneralizedSabreLayoutPass == IsPass("GeneralizedSabreLayoutPass") /\ Step
+GeneralizedSabreRoutingPass == IsPass("GeneralizedSabreRoutingPass") /\ Step
+ApplyPlacement == IsPass("ApplyPlacement") /\ Step
+ExtractModelConnectivityPass == IsPass("ExtractModelConnectivityPass") /\ Step
+RestoreModelConnectivityPass == IsPass("RestoreModelConnectivityPass") /\ Step
+SubtopologySelectionPass == IsPass("SubtopologySelectionPass") /\ Step
+PAMLayoutPass == IsPass("PAMLayoutPass") /\ Step
+PAMRoutingPass == IsPass("PAMRoutingPass") /\ Step
+QSearchSynthesisPass == IsPass("QSearchSynthesisPass") /\ Step
+LEAPSynthesisPass == IsPass("LEAPSynthesisPass") /\ Step
+PermutationAwareSynthesisPass == IsPass("PermutationAwareSynthesisPass") /\ Step
+ScanningGateRemovalPass == IsPass("ScanningGateRemovalPass") /\ Step
 OtherPass == /\ todo # <<>> /\ Head1.t = "pass" /\ Head1.name \notin Known
              /\ rec' \in Eff(Head1.name, rec, gs) /\ todo' = Tail(todo) /\ UNCHANGED const
 
-ForEachRole(role) == /\ todo # <<>> /\ Head1.t = "foreach" /\ Role(Head1) = role
-                     /\ rec' \in EffForEach(Head1, rec, gs)
-                     /\ todo' = Tail(todo) /\ UNCHANGED const
-ForEachRetargetMQ == ForEachRole("mq")
-ForEachRetargetSQ == ForEachRole("sq")
-ForEachScan == ForEachRole("scan")
-ForEachResynth == ForEachRole("resynth")
-ForEachPAMCache == ForEachRole("pam")
-ForEachUnknown == ForEachRole("unknown")
+IsForEach(role) == todo # <<>> /\ Head1.t = "foreach" /\ Role(Head1) = role
+StepForEach == rec' \in EffForEach(Head1, rec, gs) /\ todo' = Tail(todo) /\ UNCHANGED const
+ForEachRetargetMQ == IsForEach("mq") /\ StepForEach
+ForEachRetargetSQ == IsForEach("sq") /\ StepForEach
+ForEachScan == IsForEach("scan") /\ StepForEach
+ForEachResynth == IsForEach("resynth") /\ StepForEach
+ForEachPAMCache == IsForEach("pam") /\ StepForEach
+ForEachUnknown == IsForEach("unknown") /\ StepForEach
 
 IfTrue  == /\ todo # <<>> /\ Head1.t = "if" /\ TRUE \in PredVal(Head1.pred, rec, gs)
            /\ todo' = Head1.then \o Tail(todo) /\ UNCHANGED <<const, rec>>
@@ -307,7 +317,7 @@ NeverStuck == todo # <<>> => ENABLED Next
 \* every run that ends, ends executable: reported per counterexample, never stops the exploration
 EndsExecutable ==
   IF todo = <<>> /\ ~Executable(rec, gs)
-  THEN PrintT(<<"CEX", kind, level, ExecClause(rec, gs), init, gs>>)
+  THEN PrintT(<<"CEX", kind, level, ExecClause(rec, gs), init.w, init.fits, GSIndex(gs)>>)
   ELSE TRUE
 \* with loops left whenever their predicate allows it, every run ends
 Terminates == <>(todo = <<>>)
